@@ -599,3 +599,36 @@ PROPS["C12"] = dict(
     assumptions=[_SCHED_ASSUME, "after a move between two handles of the same object the source may be left either empty or "
                  "untouched: the monitor takes what it observes and requires the counts to add up", SAN_ASSUME],
 )
+
+# ----------------------------------------------------------------------------- C07
+PROPS["C07"] = dict(
+    units={"pmwm": dict(src=["harness/C07_parallel_merge.cpp"], tlx=["tlx/algorithm/parallel_multiway_merge.cpp"])},
+    quick=[
+        R("pmwm", "plain", 6, 400),
+        R("pmwm", "asan", 6, 100),
+        R("pmwm", "tsan", 4, 50, timeout=600),
+    ],
+    thorough=[
+        R("pmwm", "plain", 16, 3000, timeout=7200),
+        R("pmwm", "asan", 16, 600, timeout=7200),
+        R("pmwm", "tsan", 8, 300, timeout=7200),
+    ],
+    rule="a case = 12 shapes x 5 merges. A shape = k in {0..9,16,17,33} sorted sequences (ascending or descending) with "
+         "lengths 0..40 (sometimes a dominant sequence of up to 4200, which also reaches the natural parallel switch), "
+         "empty sequences, key universe 1..100000 (mostly tiny: heavy ties across every split point) and a length in "
+         "{0,1,total-1,total,random}. A merge = one of the four parallel entry points x merge algorithm x {exact, "
+         "sampling} splitting x oversampling {1,2,10} x threads {1,2,3,4,5,7,8,16,32} (more threads than elements "
+         "included) x forced-parallel or natural switch, for a 16-byte (copy tree) and a 40-byte (pointer tree) element "
+         "type that counts assignments per destination object. Output compared with the stable reference merge as in "
+         "C05 (keys, per-sequence prefix, exact order for stable variants, returned end, advanced begins, untouched "
+         "ends/inputs, canary) and every output position must have been assigned exactly once; TSan decides races. A "
+         "class is a distinct (entry point, splitting, algorithm, element type, thread class, length class, parallel or "
+         "fall-back, tie density) tuple.",
+    require=dict(any=["merges_checked", "parallel_merges", "merges_with_more_threads_than_elements",
+                      "parallel_merges_with_partial_length", "parallel_merges_all_keys_equal"]),
+    assumptions=["std::stable_sort of the concatenation is the reference merge order; for the unstable entry points only the "
+                 "key sequence, the per-sequence prefix property and the advanced inputs are required",
+                 "real OS scheduling only (no controlled scheduler): the threads of a parallel merge share nothing but the "
+                 "read-only inputs and disjoint output windows, so TSan + the write counters are the deciding monitors",
+                 SAN_ASSUME],
+)
